@@ -490,3 +490,7 @@ func TestC13Race(t *testing.T) {
 }
 
 var _ = strings.Contains
+
+func FuzzC13(f *testing.F) {
+	stats.Fuzz(f, stats.Prop[C13Case]{ID: "C13", Rule: ruleC13a, Gen: genC13, Check: checkC13})
+}
